@@ -426,27 +426,39 @@ def startsWithIf : Name → Bool
   | 105 :: 102 :: _ => true
   | _ => false
 
+/-- how `processIfContent` classifies a token, by its `macroName` alone: `\newif`, a name starting with `if` (O4),
+    `\fi`, `\else` or `\or`, anything else -/
+inductive NameKind where
+  | newif | opens | closes | alt | other
+  deriving DecidableEq, Repr
+
+def nameKind (t : Tok) : NameKind :=
+  let name := anyMacroName t
+  if name = [110, 101, 119, 105, 102] then .newif
+  else if startsWithIf name then .opens
+  else if name = [102, 105] then .closes
+  else if name = [101, 108, 115, 101] ∨ name = [111, 114] then .alt
+  else .other
+
 /-- the scan of `processIfContent`: `nest` = nesting, `cur` = the case being collected (reversed), `done` = finished cases
     (reversed).  Any macro whose name starts with `if` opens a level (O4), `\fi` closes one, `\else`/`\or` at level 0 start
     a new case, `\newif` swallows the next token.  Result: the cases in order, and the input after the closing `\fi`. -/
 def ifScan : Nat → List Tok → List (List Tok) → List Tok → List (List Tok) × List Tok
   | _, cur, done, [] => ((cur.reverse :: done).reverse, [])
   | nest, cur, done, [t] =>
-    let name := anyMacroName t
-    if name = [110, 101, 119, 105, 102] then (((t :: cur).reverse :: done).reverse, [])
-    else if startsWithIf name then (((t :: cur).reverse :: done).reverse, [])
-    else if name = [102, 105] then
-      (if nest = 0 then ((cur.reverse :: done).reverse, []) else (((t :: cur).reverse :: done).reverse, []))
-    else if nest = 0 ∧ (name = [101, 108, 115, 101] ∨ name = [111, 114]) then (([] :: cur.reverse :: done).reverse, [])
-    else (((t :: cur).reverse :: done).reverse, [])
+    match nameKind t with
+    | .newif => (((t :: cur).reverse :: done).reverse, [])
+    | .opens => (((t :: cur).reverse :: done).reverse, [])
+    | .closes => if nest = 0 then ((cur.reverse :: done).reverse, []) else (((t :: cur).reverse :: done).reverse, [])
+    | .alt => if nest = 0 then (([] :: cur.reverse :: done).reverse, []) else (((t :: cur).reverse :: done).reverse, [])
+    | .other => (((t :: cur).reverse :: done).reverse, [])
   | nest, cur, done, t :: u :: ts =>
-    let name := anyMacroName t
-    if name = [110, 101, 119, 105, 102] then ifScan nest (u :: t :: cur) done ts
-    else if startsWithIf name then ifScan (nest + 1) (t :: cur) done (u :: ts)
-    else if name = [102, 105] then
-      (if nest = 0 then ((cur.reverse :: done).reverse, u :: ts) else ifScan (nest - 1) (t :: cur) done (u :: ts))
-    else if nest = 0 ∧ (name = [101, 108, 115, 101] ∨ name = [111, 114]) then ifScan 0 [] (cur.reverse :: done) (u :: ts)
-    else ifScan nest (t :: cur) done (u :: ts)
+    match nameKind t with
+    | .newif => ifScan nest (u :: t :: cur) done ts
+    | .opens => ifScan (nest + 1) (t :: cur) done (u :: ts)
+    | .closes => if nest = 0 then ((cur.reverse :: done).reverse, u :: ts) else ifScan (nest - 1) (t :: cur) done (u :: ts)
+    | .alt => if nest = 0 then ifScan 0 [] (cur.reverse :: done) (u :: ts) else ifScan nest (t :: cur) done (u :: ts)
+    | .other => ifScan nest (t :: cur) done (u :: ts)
 
 /-- `cases.append([])`, then `cases[which]` with `True → 0`, `False → 1` -/
 def ifChoose (cases : List (List Tok)) (b : Bool) : List Tok := (cases ++ [[]]).getD (if b then 0 else 1) []
